@@ -32,7 +32,14 @@ fn arg_exprs() -> Vec<(&'static str, &'static str)> {
 }
 
 pub fn run(em: &mut Emit, thorough: bool, seed: u64) {
-    let vals = value_set();
+    let mut vals = value_set();
+    // receivers that hold an entry named like the function called on them
+    for keys in [vec!["size", "b"], vec!["contains", "startsWith", "endsWith", "matches"], vec!["string", "int", "uint", "double", "bytes"],
+                 vec!["getFullYear", "getHours", "getDate", "max", "min"]] {
+        let m: std::collections::HashMap<cel_interpreter::objects::Key, Value> =
+            keys.iter().enumerate().map(|(i, k)| (cel_interpreter::objects::Key::String(Arc::new(k.to_string())), Value::Int(i as i64 + 10))).collect();
+        vals.push(Value::Map(cel_interpreter::objects::Map { map: Arc::new(m) }));
+    }
     let mut rng = Rng::new(seed ^ 0xC20);
     // (a) receiver style vs function style
     let args: Vec<Value> = vec![
